@@ -138,7 +138,7 @@ func init() {
 	props["C04"] = &propDef{
 		run: func(c *Ctx) {
 			check := func(d *Driver, hc histCase, upto int, f []string) {
-				if r := coqPred(d, "INV", defaultCfg, f); r != "" {
+				if r := coqPred(d, "INV", hc.cfg, f); r != "" {
 					c.Report(Finding{Class: "violation", What: "structural invariant / getter coherence clauses failing (Model/Preds.v inv_obs): " + r, Case: hc.Case(upto), Impl: strings.Join(f, " | ")})
 				}
 			}
@@ -156,8 +156,24 @@ func init() {
 			}
 			famHist(c, defaultCfg, 10000*c.Scale, 6, "sssr", false, allButVerrs, "setters+resolve", eachState)
 			famEdgeHist(c, defaultCfg, allButVerrs, "edge-pairs", false, eachState)
+			// the invariant is proved for every configuration satisfying cfg_okm (no lax host parsing, no
+			// skip-trailing-slash, no host functions, closed sets): the relaxing options that qualify
+			for _, name := range []string{"collapse", "skipDrive", "singlePct", "acceptInvalid", "specialAdd", "collapse+skipDrive+singlePct"} {
+				cfg := cfgFromDesc(name)
+				famPathShapes(c, cfg, allButVerrs, "path-shapes:"+name, func(d *Driver, base *string, input string, io Obs, idx int) {
+					if io.Kind == "U" {
+						check(d, histCase{cfg, base, input, nil, "path-shapes:" + name, idx}, -1, io.Fields)
+					}
+				})
+				famHist(c, cfg, 1500*c.Scale, 5, "sssr", false, allButVerrs, "setters+resolve:"+name, eachState)
+			}
+			famPathShapes(c, defaultCfg, allButVerrs, "path-shapes", func(d *Driver, base *string, input string, io Obs, idx int) {
+				if io.Kind == "U" {
+					check(d, histCase{defaultCfg, base, input, nil, "path-shapes", idx}, -1, io.Fields)
+				}
+			})
 		},
-		rule: "parse results and every state of generated histories of setters and in-place resolutions; the extracted Coq predicate inv_obs (16 clauses) is evaluated on the implementation's getter values",
+		rule: "parse results and every state of generated histories of setters and in-place resolutions, plus all single/pairs of edge setter calls on 58 start URLs, plus the bounded-exhaustive path-shape family (all sequences of up to 4 segments over {empty, ., .., a, %2e, %2E%2e, C|} x separators x 4 scheme classes x 4 endings, with and without base), under the default parser and under six option configurations that satisfy the theorem's side condition cfg_okm; the extracted Coq predicate inv_obs (16 clauses) is evaluated on the implementation's getter values with the configuration in force",
 	}
 
 	props["C19"] = &propDef{
@@ -588,4 +604,46 @@ func (p *specPool) close() {
 	for _, d := range p.all {
 		d.Close()
 	}
+}
+
+// famPathShapes: bounded-exhaustive path shapes: sequences of up to 4 segments from a small alphabet,
+// each preceded by '/' (or '\\' in one variant), for four scheme classes and four endings; as an
+// absolute URL and as a relative reference against a base of the same class.
+func famPathShapes(c *Ctx, cfg *Cfg, fields []int, fam string, each func(d *Driver, base *string, input string, io Obs, idx int)) {
+	segs := []string{"", ".", "..", "a", "%2e", "%2E%2e", "C|"}
+	heads := []string{"http://h", "file://", "sc://h", "sc:"}
+	ends := []string{"", "/", "?q", "#f"}
+	n := countUpTo(len(segs), 4)
+	total := n * len(heads) * len(ends) * 2
+	c.Pool.Run(total, func(d *Driver, i int) {
+		k := i
+		rel := k%2 == 1
+		k /= 2
+		end := ends[k%len(ends)]
+		k /= len(ends)
+		head := heads[k%len(heads)]
+		k /= len(heads)
+		var sb strings.Builder
+		code := nthString("0123456", k) // digits index segs
+		for j := 0; j < len(code); j++ {
+			if i%7 == 3 && j%2 == 1 {
+				sb.WriteString("\\")
+			} else {
+				sb.WriteString("/")
+			}
+			sb.WriteString(segs[code[j]-'0'])
+		}
+		path := sb.String() + end
+		var base *string
+		input := head + path
+		if rel {
+			b := head + "/x/y"
+			base = &b
+			input = strings.TrimPrefix(path, "/")
+		}
+		io := c.cmpParse(d, cfg, base, input, fields, true, fam, i)
+		if each != nil {
+			each(d, base, input, io, i)
+		}
+	})
 }
